@@ -436,6 +436,12 @@ def check(prog, res, tier):
             if e.kind == 'read' and e.data['file'] is u['in']:
                 sz = e.data['size']
                 if sz is None or p.store.decide_eq0(Lin.of(sz) - PAYLOAD) is not True:
+                    szc = p.store.canon(Lin.of(sz)) if sz is not None else None
+                    if szc is None or not szc.is_const() or abs(szc.c - PAYLOAD) > 2:
+                        # a bulk read (whole input, 64 KiB ...) with the blocks cut out of it afterwards: not the block-by-block
+                        # design this rule follows.  Reading the *other* block constant (1014 for 1012) stays a violation.
+                        return fails + [soft(f'the one-shot blocker reads {sz if sz is not None else "everything"} bytes at a time and '
+                                             f'cuts the blocks out afterwards: outside the model of this rule', e.node)]
                     fails += need_eq0(p.store, Lin.of(sz if sz is not None else 0) - PAYLOAD,
                                       f'one-shot blocker reads {sz} bytes per block, not {PAYLOAD}', e.node)
                 reads.append(e)
